@@ -29,6 +29,11 @@ RULE = ('Reference conversations (status exchange; status-then-login with '
         'packets seen by an early listener are exactly the frames wholly '
         'contained in the first n bytes. Non-trivial: n strictly inside a '
         'frame; distinct by (conversation, protocol, link, n, plan).')
+RULE += (' ' +
+         'Added in later rounds: a default version outside the allowed set; '
+         'a 1.5 MiB frame cut at 14 offsets; the status / negotiation '
+         'conversations on a Connection object whose earlier negotiating '
+         'connect() had failed. ')
 LEVEL_TEXT = ('Enumeration of every crash point (byte offset) of reference '
               'server conversations with deterministic step budgets; '
               'exhaustive per stream in the thorough tier, strided with all '
